@@ -443,6 +443,7 @@ PROPS = {
                      "this detects gross second-order errors (factors, axes, sills), not subtle distributional defects"],
         subs=[
             sub("tb", "c14_simustat", 6, 120, qsize=20, qw=6, tw=12),
+            sub("tb_grid3d", "c14_simustat", 2, 40, qsize=20, qw=2, tw=8),
             sub("fft", "c14_simustat", 3, 48, qsize=20, qw=3, tw=12),
             sub("spectral", "c14_simustat", 6, 200, qsize=20, qw=3, tw=8),
             sub("spde", "c14_simustat", 3, 60, qsize=20, qw=3, tw=12),
